@@ -178,6 +178,28 @@ func (p *C04) Prepare(env *Env, tier string, seed uint64) error {
 			p.nlong++
 		}
 	}
+	// pieces of more than a thousand items (thresholds such as 1024, lengths
+	// that are not multiples of 8 or 16): every item is in the tree and in the
+	// instances, the last ones included
+	longNs := []int{1025, 1031, 2050}
+	if tier == "thorough" {
+		longNs = []int{1023, 1024, 1025, 1027, 1031, 1100, 2047, 2049, 2050, 4099, 5003}
+	}
+	for _, n := range longNs {
+		for _, mode := range []string{"degree", "syllable"} {
+			units := []string{"1[1]", "5_7/7[1,1/2]{txt=hi}", "6m[2]", "R[1/2]", "4[1]{key=Am}", "2m7[3/4]"}
+			if mode == "syllable" {
+				units = []string{"C[1]", "G_7/B[1,1/2]{txt=hi}", "Am[2]", "R[1/2]", "F[1]{key=Am}", "Dm7[3/4]"}
+			}
+			var sb strings.Builder
+			for i := 0; i < n; i++ {
+				sb.WriteString(units[(i*7+i/5)%len(units)])
+				sb.WriteString([]string{" ", "\n", "  ", " ;c\n"}[i%4])
+			}
+			mk("sentence", []string{"whole-sentence", "long-piece"}, []byte(sb.String()), mode, true)
+			p.nlong++
+		}
+	}
 	// more than a mebibyte of comments between two groups of chords: what
 	// comes after them is part of the piece
 	for _, n := range []int{1<<20 + 100, 1<<20 + 70000} {
